@@ -271,6 +271,67 @@ class DictV:
         return "{%s}" % ", ".join(f"{k!r}: {v!r}" for k, v in self.pairs)
 
 
+class _LivePair(list):
+    def __init__(self, fields, k, v):
+        super().__init__([k, v])
+        self._f = fields
+
+    def __setitem__(self, i, v):
+        super().__setitem__(i, v)
+        if i == 1:
+            self._f[self[0]] = v
+
+
+class _LivePairs(list):
+    """The (key, value) list of an instance dictionary: every mutation writes through to the object's fields."""
+
+    def __init__(self, fields):
+        super().__init__(_LivePair(fields, k, v) for k, v in fields.items())
+        self._f = fields
+
+    def append(self, p):
+        self._f[p[0]] = p[1]
+        super().append(_LivePair(self._f, p[0], p[1]))
+
+    def __delitem__(self, i):
+        for p_ in (self[i] if isinstance(i, slice) else [self[i]]):
+            del self._f[p_[0]]
+        super().__delitem__(i)
+
+    def pop(self, i=-1):
+        p_ = self[i]
+        del self._f[p_[0]]
+        return super().pop(i)
+
+    def clear(self):
+        self._f.clear()
+        super().clear()
+
+
+class LiveDictV(DictV):
+    """vars(obj) / obj.__dict__: the instance dictionary itself, not a copy."""
+
+    def __init__(self, obj):
+        self.obj = obj
+
+    @property
+    def pairs(self):
+        return _LivePairs(self.obj.fields)
+
+    @pairs.setter
+    def pairs(self, v):
+        self.obj.fields.clear()
+        for k, x in v:
+            self.obj.fields[k] = x
+
+
+def live_dict(o):
+    d = getattr(o, "_verif_livedict", None)
+    if d is None:
+        d = o._verif_livedict = LiveDictV(o)
+    return d
+
+
 class ProxyV:
     """types.MappingProxyType view."""
 
@@ -443,6 +504,16 @@ MISSING = Missing()
 _ATOMS = (Obj, ClassV, Opaque, Func, Bound, Builtin, Callback, ExtV, ModuleV, Seg)
 
 
+def id_slot(o):
+    """The address an object lives at.  Injective on objects that are alive at the same time; a harness may give a *new* object
+    the slot of an object that has become unreachable (CPython re-uses the address of a collected object)."""
+    while True:
+        n = getattr(o, "_verif_idslot", None)
+        if n is None:
+            return o
+        o = n
+
+
 def keq(a, b):
     """Abstract `==` used for container keys.  True / False; raises Unknown when undecided."""
     if a is b:
@@ -456,7 +527,7 @@ def keq(a, b):
     ta, tb = type(a).__name__, type(b).__name__
     if ta == "SymId" or tb == "SymId":
         if ta == tb:
-            return a.obj is b.obj
+            return id_slot(a.obj) is id_slot(b.obj)
         if isinstance(a, (int, Opaque)) or isinstance(b, (int, Opaque)):
             raise Unknown("id() compared with a number")
         return False
@@ -1514,6 +1585,32 @@ class Interp:
         except UndecidedCond as u:
             return self.w.choose(2, u.why) == 1
 
+    def heq(self, a, b):
+        """== as a hashed container (set, dict) applies it: elements whose hashes differ are never compared.  Matters for classes
+        whose __eq__ and __hash__ disagree (value equality next to an inherited identity hash)."""
+        if a is b:
+            return True
+        for x in (a, b):
+            if isinstance(x, Obj):
+                d, owner = x.cls.lookup("__eq__")
+                if d is not None and not owner.builtin:
+                    try:
+                        ha, hb = self._hv(a), self._hv(b)
+                    except Unknown:
+                        break
+                    if ha != hb:
+                        return False
+                    break
+        return self.eq(a, b)
+
+    def _hv(self, x):
+        r = self.w.B.f_hash(self, x)
+        if isinstance(r, Digest):
+            return _model_hash(r.payload)
+        if isinstance(r, (int, bool)):
+            return _model_hash(r)
+        raise Unknown("hash value")
+
     def contains(self, c, x):
         if isinstance(c, Seq):
             for i in c.items:
@@ -1525,9 +1622,9 @@ class Interp:
                     return True
             return False
         if isinstance(c, SetV):
-            return any(i is x or self.eq(i, x) for i in c.items)
+            return any(i is x or self.heq(i, x) for i in c.items)
         if isinstance(c, DictV):
-            return any(k is x or self.eq(k, x) for k, _ in c.pairs)
+            return any(k is x or self.heq(k, x) for k, _ in c.pairs)
         if isinstance(c, ProxyV):
             return self.contains(c.d, x)
         if isinstance(c, (str, SymStr)):
